@@ -1205,7 +1205,10 @@ impl Gc {
         D::Value: Sized + Any,
     {
         let size = def.size();
-        let needed = self.allocated_memory.saturating_add(size);
+        // `allocated_memory` accounts the header of each block as well (see `alloc_ignore_limit_`)
+        let needed = self
+            .allocated_memory
+            .saturating_add(GcHeader::value_offset().saturating_add(size));
         if needed >= self.memory_limit {
             #[cfg(gluon_verif)]
             crate::verif::emit(format_args!(
